@@ -123,9 +123,10 @@ def run_one_script(rnd, n):
             api = world.ScriptedApi(t2, *ident); now = rnd.randrange(1_600_000_000, 2_000_000_000)
             ops = []; script = []
             for _ in range(rnd.randrange(2, 7)):
-                kind = rnd.choice([k for k in range(1, 13) if (k in world.TYPE2_KINDS) == t2])
+                # thermostat control is left to the other streams: which frames it writes depends on the remote's code table (C15, C16)
+                kind = rnd.choice([k for k in range(1, 12) if (k in world.TYPE2_KINDS) == t2])
                 c = oc.mixed_cases(rnd, 1)[0] if rnd.random() < .3 else clean_case(rnd, kind)
-                if (c["kind"] in world.TYPE2_KINDS) != t2: c = clean_case(rnd, kind)
+                if (c["kind"] in world.TYPE2_KINDS) != t2 or c["kind"] == 12: c = clean_case(rnd, kind)
                 now += rnd.choice([0, 1, 5, 3600]); c["now"] = now; c["id"], c["key"] = ident
                 if c["kind"] == 4 and len(c["replies"]) > 1: c["replies"][1] = world.schedules_reply(rnd, now).hex()
                 ops.append(c); script += [r for r in c["replies"] if len(r) <= 2048]
@@ -150,8 +151,7 @@ def judge_scripts(out, stream, cases, texts):
     def view(t):          # per frame: its size, bytes 8-11 (session), 24-27 (timestamp), 40-42 (device id / login key); then the outcomes
         fs = t.split("|")
         # what a reply decodes to, and which exception a refused argument or a bad reply raises, are other properties' subjects (C08, C09, C02)
-        outs = ["raised" if o.startswith("exc:") else "returned" for o in fs[-1].split(";") if o]
-        return " ".join("%d:%s:%s:%s" % (len(f) // 2, f[16:24], f[48:56], f[80:86]) for f in fs[:-1]) + " -> " + ",".join(outs)
+        return " ".join("%d:%s:%s:%s" % (len(f) // 2, f[16:24], f[48:56], f[80:86]) for f in fs[:-1])
     mo = [view(t) for t in lib.run_model([seq_line("seq", c) for c in cases])]; ex = [view(t) for t in lib.run_model([seq_line("seq_spec", c) for c in cases])]
     texts = [view(t) for t in texts]
     d = lambda c: "one script of %d replies for: " % len(c["script"]) + "; ".join(oc.describe(o)[:120] for o in c["ops"])
